@@ -2478,7 +2478,8 @@ class CencSampleEncryptionBox(FullBox):
             except AttributeError:
                 rv["iv_size"] = kwargs["options"].iv_size
         num_entries = r.get('I', 'num_entries')
-        assert rv['iv_size'] in {8, 16}
+        if rv['iv_size'] not in {8, 16}:
+            raise ValueError(f'senc: invalid IV size {rv["iv_size"]}')
         rv["samples"] = []
         saiz = parent.find_child('saiz')
         if saiz is None:
@@ -2734,7 +2735,9 @@ class TrackFragmentRunBox(FullBox):
     @classmethod
     def parse(clz, src, parent, **kwargs):
         rv = FullBox.parse(src, parent, **kwargs)
-        tfhd = parent.tfhd
+        tfhd = parent.find_child('tfhd')
+        if tfhd is None:
+            raise ValueError('trun: the track fragment has no tfhd box')
         sample_count = struct.unpack('>I', src.read(4))[0]
         rv["sample_count"] = sample_count
         if rv["flags"] & clz.data_offset_present:
